@@ -62,6 +62,7 @@ CorpusEv ==
       /\ (p.ok /\ E.ok =>
             /\ A("C19", "examples-as-specified", E.examples = p.examples)
             /\ A("C19", "write-reproduces-lines", E.written = WriteAll(p.examples, 1) /\ E.written_nl)
+            /\ ("short_same" \in DOMAIN E => A("C19", "short-writes-are-completed", E.short_same))
             /\ A("C19", "reparse-gives-same-examples", E.reparse_ok /\ E.reparsed = p.examples)
             /\ ("toks" \in DOMAIN E.extra =>
                   A("C19", "tokenizer-output-parses-to-its-tokens",
